@@ -2,25 +2,26 @@
 # usage: tools/seedconfirm.sh <name> <property> "<pkgs for existing tests>" "<what it needs>" "<checks that catch it>"
 # Confirms a sub-agent's seeded change in its scratch worktree /tmp/seed/<name> and stores it under /verif/seeded/<name>/.
 set -u
+root=${SEEDROOT:-/tmp/seed}; store=${STORE:-$1}
 name=$1; prop=$2; pkgs=$3; needs=$4; caught=$5
-wt=/tmp/seed/$name
+wt=$root/$name
 export GOFLAGS=-mod=mod GOPROXY=off
 cd $wt || exit 1
 demo=$(git status --porcelain | grep '^??' | awk '{print $2}' | grep -E 'zz_seed.*_test.go$' | head -1)
 demopkg=./$(dirname $demo)
 echo "demo: $demo"
-git diff > /tmp/seed/$name.patch
+git diff > $root/$name.patch
 b=$(go build ./... 2>&1 | tail -3); echo "build: ${b:-ok}"
 t1=$(go test -vet=off -count=1 -skip 'SeedDemo|TestBridgeCallData|TestClaimCalldata|TestWithReorgs' $pkgs 2>&1 | grep -E "^(FAIL|---)" | head -5); echo "existing tests with change (docker-dependent tests and the baseline-flaky TestWithReorgs skipped): ${t1:-all ok}"
 d1=$(go test -vet=off -count=1 -run 'SeedDemo' $demopkg 2>&1 | grep -E "^(ok|FAIL|--- FAIL)" | head -3 | tr '\n' ' '); echo "demo with change: $d1"
-git stash -q
+git apply -R $root/$name.patch
 d2=$(go test -vet=off -count=1 -run 'SeedDemo' $demopkg 2>&1 | grep -E "^(ok|FAIL|--- FAIL)" | head -3 | tr '\n' ' '); echo "demo without change: $d2"
-git stash pop -q
-mkdir -p /verif/seeded/$name
-cp /tmp/seed/$name.patch /verif/seeded/$name/patch.diff
-cp $demo /verif/seeded/$name/$(basename $demo).txt
-cp SEED_NOTES.md /verif/seeded/$name/SEED_NOTES.md 2>/dev/null
-python3 - "$name" "$prop" "$needs" "$caught" "${b:-ok}" "${t1:-all ok}" "$d1" "$d2" "$demo" <<'PY'
+git apply $root/$name.patch
+mkdir -p /verif/seeded/$store
+cp $root/$name.patch /verif/seeded/$store/patch.diff
+cp $demo /verif/seeded/$store/$(basename $demo).txt
+cp SEED_NOTES.md /verif/seeded/$store/SEED_NOTES.md 2>/dev/null
+python3 - "$store" "$prop" "$needs" "$caught" "${b:-ok}" "${t1:-all ok}" "$d1" "$d2" "$demo" <<'PY'
 import json,sys
 name,prop,needs,caught,b,t1,d1,d2,demo=sys.argv[1:10]
 json.dump({"id":name,"breaks_property":prop,"written_by":"independent sub-agent given only the property text and a scratch worktree",
@@ -28,4 +29,4 @@ json.dump({"id":name,"breaks_property":prop,"written_by":"independent sub-agent 
  "confirmed_in_scratch_worktree":{"go build ./...":b,"existing tests of the touched packages with the change (docker-dependent tests and the baseline-flaky l1infotreesync TestWithReorgs skipped)":t1,"demo with the change":d1.strip(),"demo without the change":d2.strip()},
  "checks_run_against_it":caught},open('/verif/seeded/%s/meta.json'%name,'w'),indent=1)
 PY
-echo "stored /verif/seeded/$name"
+echo "stored /verif/seeded/$store"
